@@ -10,6 +10,7 @@ package objects
 import (
 	"bytes"
 	"compress/gzip"
+	"fmt"
 
 	"github.com/pkg/errors"
 
@@ -262,10 +263,12 @@ func (*NewSessionCreated) CRC() uint32 {
 	return 0x9ec20908 //nolint:gomnd not magic
 }
 
-//! исключение из правил: это оказывается почти-вектор, т.к.
-//  записан как `msg_container#73f1f8dc messages:vector<%Message> = MessageContainer;`
-//  судя по всему, <%Type> означает, что может это неявный вектор???
-//! возможно разработчики в этот момент поехаи кукухой, я не знаю правда
+// ! исключение из правил: это оказывается почти-вектор, т.к.
+//
+//	записан как `msg_container#73f1f8dc messages:vector<%Message> = MessageContainer;`
+//	судя по всему, <%Type> означает, что может это неявный вектор???
+//
+// ! возможно разработчики в этот момент поехаи кукухой, я не знаю правда
 type MessageContainer []*messages.Encrypted
 
 func (*MessageContainer) CRC() uint32 {
@@ -291,6 +294,10 @@ func (t *MessageContainer) MarshalTL(e *tl.Encoder) error {
 
 func (t *MessageContainer) UnmarshalTL(d *tl.Decoder) error {
 	count := int(d.PopInt())
+	// each message takes at least 16 bytes (msg_id, seqno, bytes)
+	if count < 0 || count > d.Remaining()/(tl.LongLen+tl.WordLen+tl.WordLen) {
+		return fmt.Errorf("container is bigger than data: %v messages, but only %v bytes left", count, d.Remaining())
+	}
 	arr := make([]*messages.Encrypted, count)
 	for i := 0; i < count; i++ {
 		msg := new(messages.Encrypted)
